@@ -1,7 +1,7 @@
 (* Replay of recorded supervisor histories through the model (correspondence corr_Sup). *)
 From Coq Require Import List ZArith NArith Bool.
 From PC.Base Require Import Util Assoc.
-From PC.Sup Require Import Model.
+From PC.Sup Require Import Model Monitors.
 Import ListNotations.
 
 Record trace := mkTrace { t_confs : amap pconf; t_ordered : bool; t_evs : list (tid * event) }.
@@ -14,3 +14,25 @@ Definition rejected (ts : list trace) : list nat := failing accepted ts.
 (* for every trace: number of events accepted before the first rejection (= length when accepted) *)
 Definition reject_positions (ts : list trace) : list nat :=
   map (fun t => fst (accept_prefix (init (t_confs t) (t_ordered t)) (t_evs t) 0)) ts.
+
+(* property monitors on the recorded histories (whether or not the model accepts them) *)
+Definition bad_mon (m : amap pconf -> list (tid * event) -> bool) (ts : list trace) : list nat :=
+  failing (fun t => m (t_confs t) (t_evs t)) ts.
+Definition bad_C01 := bad_mon holds_C01.
+Definition bad_C02 := bad_mon holds_C02.
+Definition bad_C03 := bad_mon holds_C03.
+Definition bad_C04 := bad_mon holds_C04.
+Definition bad_C05 := bad_mon holds_C05.
+Definition bad_C08 := bad_mon holds_C08.
+Definition bad_C09 := bad_mon holds_C09.
+Definition bad_C12 (ts : list trace) : list nat :=
+  failing (fun t => holds_C12 (t_ordered t) (t_confs t) (t_evs t)) ts.
+
+(* position of the first violation of a monitor in one trace (for replay files) *)
+Definition first_bad (m : amap pconf -> obs -> tid * event -> bool) (t : trace) : option nat :=
+  mon_run (t_confs t) (m (t_confs t)) (obs0 (t_confs t)) (t_evs t) 0.
+
+(* per trace: windows of known findings that the history went through, coded 64*zombie+32*sdlag+16*commit+8*late+4*sdspawn+2*dup+stale *)
+Definition window_code (t : trace) : nat :=
+  fold_left (fun acc (b : bool) => 2 * acc + (if b then 1 else 0)) (windows_of (final_obs (t_confs t) (t_evs t))) 0.
+Definition window_codes (ts : list trace) : list nat := map window_code ts.
